@@ -27,6 +27,7 @@ func registerStdIntrinsics(p *Program) {
 		tn := tn
 		pre := "(*sync/atomic." + tn + ")."
 		I[pre+"Load"] = func(e *Exec, fr *frame, args []Value) Value {
+			e.interfere(atomicField(e, args[0]))
 			v := atomicField(e, args[0]).val.(*Term)
 			if tn == "Bool" {
 				return e.ts.Not(e.ts.Eq(v, e.ts.BV(v.W, 0)))
@@ -36,6 +37,9 @@ func registerStdIntrinsics(p *Program) {
 		I[pre+"Store"] = func(e *Exec, fr *frame, args []Value) Value {
 			l := atomicField(e, args[0])
 			v := args[1].(*Term)
+			if e.interfere(l) {
+				e.guaranteeWrite(l, v, "atomic Store")
+			}
 			if tn == "Bool" {
 				v = e.ts.BoolToBV(v, 32)
 			}
@@ -44,6 +48,9 @@ func registerStdIntrinsics(p *Program) {
 		}
 		I[pre+"Swap"] = func(e *Exec, fr *frame, args []Value) Value {
 			l := atomicField(e, args[0])
+			if e.interfere(l) {
+				e.guaranteeWrite(l, args[1].(*Term), "atomic Swap")
+			}
 			old := l.val.(*Term)
 			v := args[1].(*Term)
 			if tn == "Bool" {
@@ -55,18 +62,29 @@ func registerStdIntrinsics(p *Program) {
 		}
 		I[pre+"Add"] = func(e *Exec, fr *frame, args []Value) Value {
 			l := atomicField(e, args[0])
+			if e.interfere(l) {
+				e.unsupported("atomic Add on an interfered cell")
+			}
 			nv := e.ts.Bin(OpAdd, l.val.(*Term), args[1].(*Term))
 			l.val = nv
 			return nv
 		}
 		I[pre+"CompareAndSwap"] = func(e *Exec, fr *frame, args []Value) Value {
 			l := atomicField(e, args[0])
+			inter := e.interfere(l)
 			cur := l.val.(*Term)
 			old, nw := args[1].(*Term), args[2].(*Term)
 			if tn == "Bool" {
 				old, nw = e.ts.BoolToBV(old, 32), e.ts.BoolToBV(nw, 32)
 			}
 			eq := e.ts.Eq(cur, old)
+			if inter {
+				if e.branch(eq) {
+					e.guaranteeWrite(l, nw, "atomic CompareAndSwap")
+					return e.ts.Bool(true)
+				}
+				return e.ts.Bool(false)
+			}
 			l.val = e.ts.Ite(eq, nw, cur)
 			return eq
 		}
@@ -343,3 +361,32 @@ func (e *Exec) deepEqual(a, b Value) *Term {
 }
 
 var _ = sort.Ints
+
+const maxInterference = 6
+
+// interfere applies the rely of a cell registered with zzsym.InterfereMonotonicU64: before every
+// access other threads may have raised it to any value >= the last value this thread saw.
+func (e *Exec) interfere(l *Loc) bool {
+	if e.interf == nil || !e.interf[l] {
+		return false
+	}
+	if e.spec > 0 {
+		e.abortSpec("interference")
+	}
+	last := l.val.(*Term)
+	if e.envInputs >= maxInterference {
+		return true // bound: no further interference events on this path
+	}
+	v := e.newInput("env.interference", last.W)
+	e.assume(e.ts.Cmp(OpUle, last, v))
+	l.val = v
+	e.envInputs++
+	return true
+}
+
+// guaranteeWrite checks the guarantee (strict increase w.r.t. the current value) and performs the write.
+func (e *Exec) guaranteeWrite(l *Loc, nw *Term, what string) {
+	cur := l.val.(*Term)
+	e.assertProp(e.ts.Cmp(OpUlt, cur, nw), "thread-modular guarantee violated: "+what+" does not strictly increase the cell under interference")
+	l.val = nw
+}
